@@ -396,6 +396,175 @@ def r16h(ctx):
         raise AnalysisError("R16h: Element.search reads no property accessor")
 
 
+def regex_alphabet(pat: str) -> set[str] | None:
+    """The characters a regular expression can consume, when that is a small explicit set; None when it uses a category (\\s, \\w …),
+    `.`, a negated set or a range wider than 16 characters (parsed with re._parser: no text matching)."""
+    import re._parser as sp  # type: ignore
+    try:
+        tree = sp.parse(pat)
+    except Exception:  # noqa: BLE001
+        return None
+
+    def go(items) -> set[str] | None:
+        out: set[str] = set()
+        for op, av in items:
+            o = str(op)
+            if o == "LITERAL":
+                out.add(chr(av))
+            elif o == "IN":
+                for o2, a2 in av:
+                    o2 = str(o2)
+                    if o2 == "LITERAL":
+                        out.add(chr(a2))
+                    elif o2 == "RANGE" and a2[1] - a2[0] < 16:
+                        out |= {chr(x) for x in range(a2[0], a2[1] + 1)}
+                    else:
+                        return None
+            elif o in ("MAX_REPEAT", "MIN_REPEAT", "POSSESSIVE_REPEAT"):
+                r = go(av[2])
+                if r is None:
+                    return None
+                out |= r
+            elif o in ("SUBPATTERN",):
+                r = go(av[3])
+                if r is None:
+                    return None
+                out |= r
+            elif o == "ATOMIC_GROUP":
+                r = go(av)
+                if r is None:
+                    return None
+                out |= r
+            elif o == "BRANCH":
+                for br in av[1]:
+                    r = go(br)
+                    if r is None:
+                        return None
+                    out |= r
+            elif o in ("AT", "ASSERT", "ASSERT_NOT"):
+                continue
+            else:
+                return None
+        return out
+
+    return go(list(tree))
+
+
+def _append_path_funcs(repo):
+    """Functions of Element / ParagraphBase / Paragraph that text chunks travel through: reachable by self-calls that pass arguments to a
+    str-carrying parameter, from append_plain_text and Element.append (depth 4)."""
+    start = []
+    for q in ("Paragraph.append_plain_text", "Element.append", "Element._Element__append", "Element.__append"):
+        g = repo.find_func(q)
+        if g is not None:
+            start.append(g)
+    if not start:
+        raise AnalysisError("R16i: append path not found")
+    seen, work = {}, [(g, 0) for g in start]
+    while work:
+        g, d = work.pop()
+        if id(g.node) in seen or d > 4:
+            continue
+        seen[id(g.node)] = g
+        if g.cls is None:
+            continue
+        for c in walk_no_nested(g.node):
+            if isinstance(c, ast.Call) and isinstance(c.func, ast.Attribute) and isinstance(c.func.value, ast.Name) and c.func.value.id in ("self", "cls"):
+                nm = c.func.attr
+                if nm.startswith("_Element__"):
+                    nm = nm[len("_Element"):]
+                h = g.cls.lookup(nm) or repo.cls("Paragraph").lookup(nm)
+                # only callees that are handed text: some argument, and a parameter declared to carry str
+                if h is not None and (c.args or c.keywords) and any(a.annotation is not None and "str" in ast.unparse(a.annotation) for a in h.node.args.args):
+                    work.append((h, d + 1))
+    return list(seen.values())
+
+
+def r16i(ctx, children: bool = True):
+    """Re-encoding a container keeps its children and its characters.
+
+    `replace(formatted=True)` collects the containers it has written into and calls `append_plain_text("")` on each wrapper afterwards.
+    That only "encodes spaces, tabs and line breaks as in a freshly created paragraph" and leaves "markup and neighbouring text in place" if
+    (a) the content reader hands on the live child elements — with copies, the wrapper of a nested span collected earlier points at a
+    node that is no longer in the tree and is never re-encoded — and (b) the only characters the append path rewrites are the ones the
+    encoding is about: a regular expression substituted on that path consumes U+0020 only (tab and line break have been split out before;
+    NBSP, thin spaces, CR are text).
+    """
+    repo = ctx.repo
+    ctx.rule("R16i", "the append_plain_text path hands on the live children and rewrites no character other than U+0020", floor=2)
+    if children:
+        _r16i_children(ctx)
+    _r16i_subs(ctx)
+
+
+def _r16i_children(ctx):
+    repo = ctx.repo
+    g = repo.cls("Paragraph").lookup("_expand_spaces")
+    if g is None:
+        raise AnalysisError("R16i: Paragraph._expand_spaces not found")
+    loops = [x for x in walk_no_nested(g.node) if isinstance(x, ast.For) and isinstance(x.target, ast.Name)
+             and any(isinstance(c, ast.Call) and call_name(c) in ("xpath", "iterchildren", "children") or isinstance(c, ast.Attribute) and c.attr == "children" for c in ast.walk(x.iter))]
+    if len(loops) != 1:
+        raise AnalysisError("R16i: content walk of _expand_spaces not found")
+    lp = loops[0]
+    v = lp.target.id
+    aliases = {v}
+    for st in walk_no_nested(lp):
+        if isinstance(st, ast.Assign) and isinstance(st.value, ast.Name) and st.value.id in aliases:
+            aliases |= {t.id for t in st.targets if isinstance(t, ast.Name)}
+    bad = []
+    n_el = 0
+    for c in walk_no_nested(lp):
+        if isinstance(c, ast.Call) and isinstance(c.func, ast.Attribute) and c.func.attr in ("append", "extend", "insert") and c.args and isinstance(c.func.value, ast.Name):
+            e = c.args[-1]
+            texty = isinstance(e, (ast.Constant, ast.JoinedStr)) or isinstance(e, ast.Call) and call_name(e) == "str" or isinstance(e, ast.Attribute) and e.attr in ("text", "tail")
+            if texty:
+                continue
+            n_el += 1
+            if not (isinstance(e, ast.Name) and e.id in aliases):
+                bad.append(c)
+    ctx.instance("R16i", f"{g.file}:{g.ident}", f"{n_el} element hand-over(s): the walked child itself", ok=not bad and n_el > 0, nontrivial=True, line=lp.lineno)
+    if n_el == 0:
+        ctx.report("R16i", g, lp, "no child element handed on", "the content reader of append_plain_text drops the child elements of the container")
+    for c in bad:
+        ctx.report("R16i", g, c, norm(c, 60),
+                   f"{g.ident} hands `{norm(c.args[-1], 40)}` to the rebuild instead of the child it walks: append_plain_text then replaces every inline child by another node, and the "
+                   f"wrappers that replace(formatted=True) has queued for re-encoding (nested spans) point at nodes no longer in the document, so their tabs, line breaks and "
+                   f"blanks stay raw")
+
+
+def _r16i_subs(ctx):
+    # (b) substitutions on the append path
+    repo = ctx.repo
+    n_sub = 0
+    for f in _append_path_funcs(repo):
+        for c in walk_no_nested(f.node):
+            if not (isinstance(c, ast.Call) and isinstance(c.func, ast.Attribute) and c.func.attr in ("sub", "subn")):
+                continue
+            recv = c.func.value
+            pat = UNKNOWN
+            if isinstance(recv, ast.Name) and recv.id == "re" and c.args:
+                pat = repo.fold(c.args[0], f.module)
+                repl = c.args[1] if len(c.args) > 1 else None
+            else:
+                node = f.module.assigns.get(recv.id) if isinstance(recv, ast.Name) else None
+                if isinstance(node, ast.Call) and node.args:
+                    pat = repo.fold(node.args[0], f.module)
+                repl = c.args[0] if c.args else None
+            n_sub += 1
+            alpha = regex_alphabet(pat) if isinstance(pat, str) else None
+            ok = alpha is not None and alpha <= {" "} and isinstance(repl, ast.Constant) and repl.value == " "
+            ctx.instance("R16i", f"{f.file}:{f.ident}", f"`{norm(c, 40)}`: pattern {pat!r} consumes {sorted(alpha) if alpha is not None else 'an open character class'}", ok=ok, nontrivial=True, line=c.lineno)
+            if not ok:
+                ctx.report("R16i", f, c, f"{norm(c, 50)} with pattern {pat!r}",
+                           f"{f.ident} is on the path every text chunk takes through append()/append_plain_text() and substitutes {pat!r}: characters other than U+0020 "
+                           f"(no-break and typographic spaces, CR …) in the neighbouring text or in the replacement are rewritten, so the result of a formatted replace is not "
+                           f"re.sub() of the text and a string does not survive Paragraph(text)")
+    ctx.extra["append_path_substitutions"] = n_sub
+    if n_sub == 0:
+        ctx.note("R16i: no regex substitution on the append path")
+
+
 def run(ctx):
     arm, else_incs, loop = r16a(ctx)
     r16b(ctx, arm, else_incs, loop)
@@ -405,12 +574,22 @@ def run(ctx):
     r16e(ctx)
     r16g(ctx)
     r16h(ctx)
+    r16i(ctx)
 
 
 from ..selftest import Seed, unparse_seed  # noqa: E402
 
 _EL = "src/odfdo/element.py"
 SEEDS = [
+    Seed("_expand_spaces returns copies of the inline children", "fault", "src/odfdo/paragraph.py",
+         '            obj.tail = ""\n            if obj.tag != "text:s":\n                result.append(obj)\n                continue',
+         '            if obj.tag != "text:s":\n                child = obj.clone\n                child.tail = ""\n                result.append(child)\n                continue', "R16i"),
+    Seed("_expand_spaces names the child it hands on", "neutral", "src/odfdo/paragraph.py",
+         '            obj.tail = ""\n            if obj.tag != "text:s":\n                result.append(obj)\n                continue',
+         '            obj.tail = ""\n            if obj.tag != "text:s":\n                child = obj\n                result.append(child)\n                continue'),
+    Seed("_re_anyspace widened to \\s+", "fault", _EL, '_re_anyspace = re.compile(r" +")', '_re_anyspace = re.compile(r"\\s+")', "R16i"),
+    Seed("_re_anyspace takes tabs too", "fault", _EL, '_re_anyspace = re.compile(r" +")', '_re_anyspace = re.compile(r"[ \\t]+")', "R16i"),
+    Seed("_re_anyspace written with a quantifier", "neutral", _EL, '_re_anyspace = re.compile(r" +")', '_re_anyspace = re.compile(r"[ ]{1,}")'),
     Seed("text_recursive memoised on the wrapper", "fault", _EL,
          '        return self.inner_text + (self.tail or "")', '        if getattr(self, "_tr", None) is None:\n            self._tr = self.inner_text + (self.tail or "")\n        return self._tr', "R16h"),
     Seed("inner_text with a cache decorator", "fault", _EL,
